@@ -22,3 +22,62 @@ Proof.
   - rewrite filter_keep. reflexivity.
   - reflexivity.
 Qed.
+
+(* ---- update(iterable, **kwargs) ----------------------------------------------------------- *)
+Definition src_all_keys (it : upd_src) : list K :=
+  match it with SrcNone => [] | SrcMapping m => expand m | SrcIterable ks => ks end.
+
+Lemma fold_src_add_keys ks : forall s,
+  fold_left (fun self x => let key := x in let self := src_add self key in self) ks s = tc_adds s ks.
+Proof.
+  induction ks as [|k r IH]; intro s; cbn [fold_left tc_adds]; [reflexivity|].
+  cbv zeta. rewrite src_add_is_model. apply IH.
+Qed.
+
+Lemma fold_src_add_repeat k n : forall s,
+  fold_left (fun self x => let i := x in let self := src_add self k in self) (seq 0 n) s = tc_adds s (repeat k n).
+Proof.
+  generalize 0%nat as a. induction n as [|n IH]; intros a s; cbn [seq fold_left repeat tc_adds]; [reflexivity|].
+  cbv zeta. rewrite src_add_is_model. apply IH.
+Qed.
+
+Lemma tc_adds_app s a b : tc_adds s (a ++ b) = tc_adds (tc_adds s a) b.
+Proof. unfold tc_adds. apply fold_left_app. Qed.
+
+Lemma fold_src_add_pairs m : forall s,
+  fold_left (fun self '(x0, x1) =>
+               let key := x0 in let count := x1 in
+               let self := fold_left (fun self x => let i := x in let self := src_add self key in self) (seq 0 count) self in
+               self) m s
+  = tc_adds s (expand m).
+Proof.
+  induction m as [|[k c] r IH]; intro s; cbn [fold_left]; [reflexivity|].
+  cbv zeta. rewrite fold_src_add_repeat, IH. unfold expand. cbn [flat_map fst snd].
+  rewrite tc_adds_app. reflexivity.
+Qed.
+
+(* one level of the body, without the keyword part *)
+Lemma src_update_no_kwargs fuel s it :
+  src_update (S fuel) s it [] = tc_adds s (src_all_keys it).
+Proof.
+  cbn [src_update is_nonempty]. cbv zeta.
+  destruct it as [|m|ks]; cbn [src_is_none negb src_items_method opt_is_some opt_items src_keys src_all_keys].
+  - reflexivity.
+  - apply fold_src_add_pairs.
+  - apply fold_src_add_keys.
+Qed.
+
+Lemma src_update_is_model fuel s it kw : (2 <= fuel)%nat ->
+  src_update fuel s it kw = tc_adds s (src_all_keys it ++ expand kw).
+Proof.
+  intro Hf. destruct fuel as [|[|fuel]]; [lia|lia|].
+  rewrite tc_adds_app.
+  destruct kw as [|p kw'].
+  - cbn [expand flat_map tc_adds fold_left]. apply src_update_no_kwargs.
+  - remember (p :: kw') as kw eqn:Ekw.
+    assert (Hne : is_nonempty kw = true) by (subst; reflexivity).
+    change (src_update (S (S fuel)) s it kw) with
+      (let self := src_update (S (S fuel)) s it [] in
+       if is_nonempty kw then src_update (S fuel) self (SrcMapping kw) [] else self) at 1.
+    cbv zeta. rewrite Hne, !src_update_no_kwargs. reflexivity.
+Qed.
